@@ -6,6 +6,10 @@ Regenerated into coq/Gen/G_manager.v on every run, over coq/Lib/ManagerLib.v:
     arithmetic of Server.incref / Server.decref / the tail of Server.create (from the store
     into id_to_obj to the return).  The head of create (registry lookup, construction of
     the referent, computation of `exposed`, ident) is pinned statement by statement.
+ 1b. `incref_under_mutex`, `decref_under_mutex`, `create_under_mutex`, `mutex_is_rlock`,
+    `table_writers` : every access to the two tables in those three functions lies inside a
+    `with self.mutex:` block, the mutex is a threading.RLock made once in __init__, and no other
+    method of Server stores into the tables (the translation of part 1 flattens the `with`).
  2. `serve_body`, `hr_body` : the control skeleton (try / except / else nesting and order,
     handler classes, if-tests, raise, assert, statement order) of the loop body of
     Server.serve_client and of Server.handle_request as statement trees.  Simple statements
@@ -254,6 +258,102 @@ def gen_refcounts(server):
     out.append('Definition create_tail {E : Type} (s : sst E) (v_ident : Z) (v_entry : E) : out (sst E) Z :=\n%s.\n'
                % tr.block(stmts[k:], 'Exc E_Other s'))
     return '\n'.join(out)
+
+
+# ------------------------------------------------- part 1b: the lock around the tables
+# RcTr.block flattens `with self.mutex:` (the translated functions are sequential), so the lock
+# -- the only code-level mechanism that makes one incref / decref / create atomic among the
+# server's threads -- would be invisible to the translation.  It is checked here, structurally:
+# in each of the three functions EVERY access to self.id_to_obj / self.id_to_refcount (stores,
+# augmented stores, deletes, and the reads of the check-then-act tests) and every call of
+# self.incref / self.decref lies lexically inside a `with self.mutex:` block; the mutex is created
+# once, in Server.__init__, as threading.RLock() (create calls incref while it holds the lock);
+# no other method of Server stores into / deletes from the tables.
+TABLES = ('id_to_obj', 'id_to_refcount')
+MUTEX_WITH = 'self.mutex'
+
+
+def _is_self_attr(n, names):
+    return isinstance(n, ast.Attribute) and n.attr in names and isinstance(n.value, ast.Name) \
+        and n.value.id == 'self'
+
+
+def _table_accesses(fn):
+    """[(node, locked)] for every table access / incref / decref call in fn"""
+    out = []
+
+    def visit(node, locked):
+        if isinstance(node, (ast.FunctionDef, ast.AsyncFunctionDef, ast.Lambda)) and node is not fn:
+            raise GenError('managers.py:%s: Server.%s: nested function' % (node.lineno, fn.name))
+        if isinstance(node, ast.With):
+            exprs = [ast.unparse(i.context_expr) for i in node.items]
+            if MUTEX_WITH in exprs:
+                if exprs != [MUTEX_WITH] or node.items[0].optional_vars is not None:
+                    raise GenError('managers.py:%s: Server.%s: only a plain `with self.mutex:` is supported'
+                                   % (node.lineno, fn.name))
+                for ch in node.body:
+                    visit(ch, True)
+                return
+        if _is_self_attr(node, TABLES) or _is_self_attr(node, ('incref', 'decref')):
+            out.append((node, locked))
+        if _is_self_attr(node, ('mutex',)):
+            # any use of the mutex other than `with self.mutex:` (acquire/release by hand, aliasing)
+            raise GenError('managers.py:%s: Server.%s: self.mutex used outside a `with` header'
+                           % (node.lineno, fn.name))
+        for ch in ast.iter_child_nodes(node):
+            visit(ch, locked)
+    for st in fn.body:
+        visit(st, False)
+    return out
+
+
+def _stores_tables(fn):
+    """does fn store into / delete from / rebind one of the tables"""
+    for n in ast.walk(fn):
+        tgts = []
+        if isinstance(n, ast.Assign):
+            tgts = n.targets
+        elif isinstance(n, (ast.AugAssign, ast.AnnAssign)):
+            tgts = [n.target]
+        elif isinstance(n, ast.Delete):
+            tgts = n.targets
+        flat = []
+        for t in tgts:
+            flat += list(t.elts) if isinstance(t, (ast.Tuple, ast.List)) else [t]
+        for t in flat:
+            base = t.value if isinstance(t, ast.Subscript) else t
+            if _is_self_attr(base, TABLES):
+                return True
+        # mutating dict methods called on a table
+        if isinstance(n, ast.Call) and isinstance(n.func, ast.Attribute) and _is_self_attr(n.func.value, TABLES) \
+                and n.func.attr in ('pop', 'popitem', 'clear', 'update', 'setdefault', '__setitem__', '__delitem__'):
+            return True
+    return False
+
+
+def gen_mutex(server):
+    out = []
+    for name in ('incref', 'decref', 'create'):
+        fn = find_method(server, name)
+        acc = _table_accesses(fn)
+        stores = _stores_tables(fn)
+        if not acc or not stores:
+            raise GenError('Server.%s: no update of id_to_obj / id_to_refcount found' % name)
+        ok = all(locked for _, locked in acc)
+        out.append('Definition %s_under_mutex : bool := %s.' % (name, 'true' if ok else 'false'))
+    init = find_method(server, '__init__')
+    made = [ast.unparse(n.value) for n in ast.walk(init)
+            if isinstance(n, ast.Assign) and any(_is_self_attr(t, ('mutex',)) for t in n.targets)]
+    elsewhere = [fn.name for fn in server.body if isinstance(fn, ast.FunctionDef) and fn.name != '__init__'
+                 and any(isinstance(n, (ast.Assign, ast.AugAssign, ast.Delete)) and
+                         any(_is_self_attr(t, ('mutex',)) for t in
+                             (n.targets if not isinstance(n, ast.AugAssign) else [n.target]))
+                         for n in ast.walk(fn))]
+    rlock = made == ['threading.RLock()'] and not elsewhere
+    out.append('Definition mutex_is_rlock : bool := %s.' % ('true' if rlock else 'false'))
+    writers = sorted(fn.name for fn in server.body if isinstance(fn, ast.FunctionDef) and _stores_tables(fn))
+    out.append('Definition table_writers : list string := %s.' % cstrs(writers))
+    return '\n'.join(out) + '\n'
 
 
 # ---------------------------------------------------------------- part 2: skeletons
@@ -514,7 +614,7 @@ def generate(repo):
              'From Coq Require Import String ZArith List Bool.',
              'From BV Require Import Lib.ManagerLib.',
              'Import ListNotations.', 'Open Scope Z_scope.', '',
-             gen_refcounts(server), gen_skeletons(server), gen_callers(tree, server), gen_proxy_init(tree),
+             gen_refcounts(server), gen_mutex(server), gen_skeletons(server), gen_callers(tree, server), gen_proxy_init(tree),
              gen_registry(repo)]
     return '\n'.join(parts)
 
